@@ -962,43 +962,30 @@ func RDistinct(c *core.Ctx) {
 		c.Anchor("the two parameters of knownDistinctSets")
 		return
 	}
-	// boolean locals assigned once
-	locals := map[types.Object]ast.Expr{}
-	ast.Inspect(fd.Body, func(x ast.Node) bool {
-		if as, ok := x.(*ast.AssignStmt); ok && as.Tok == token.DEFINE && len(as.Lhs) == len(as.Rhs) {
-			for i, l := range as.Lhs {
-				if id, ok := l.(*ast.Ident); ok && isBoolExpr(info, as.Rhs[i]) {
-					locals[info.ObjectOf(id)] = as.Rhs[i]
-				}
-			}
-		}
-		return true
-	})
-	// side: a disjunction of prm.Equals(P()) -> class names and which parameter
-	var side func(e ast.Expr) (int, []string, bool)
-	side = func(e ast.Expr) (int, []string, bool) {
-		e = ast.Unparen(e)
-		if id, ok := e.(*ast.Ident); ok {
-			if def, ok := locals[info.ObjectOf(id)]; ok {
-				return side(def)
-			}
-		}
-		if be, ok := e.(*ast.BinaryExpr); ok && be.Op == token.LOR {
-			p1, a, ok1 := side(be.X)
-			p2, b, ok2 := side(be.Y)
-			return p1, append(a, b...), ok1 && ok2 && p1 == p2
-		}
-		call, ok := e.(*ast.CallExpr)
+	// Semantic reading of the function: its atoms are the identity tests `param.Equals(Class())`;
+	// the body is evaluated (if / return / boolean locals, !, &&, ||) for every truth assignment of
+	// the atoms.  The form is accepted when every assignment that makes the function answer true
+	// contains an identity of BOTH operands with listed classes — whatever the spelling (one
+	// expression, guard clauses, De Morgan, locals).  Anything the evaluator cannot read (loops,
+	// category tables, other predicates) may influence the answer and is refused.
+	type atom struct {
+		prm   int
+		class string
+	}
+	var atoms []atom
+	atomIndex := map[atom]int{}
+	atomOf := func(e ast.Expr) (int, bool) {
+		call, ok := ast.Unparen(e).(*ast.CallExpr)
 		if !ok || !core.IsCallTo(info, call, equals) || len(call.Args) != 1 {
-			return -1, nil, false
+			return 0, false
 		}
 		sel, ok := call.Fun.(*ast.SelectorExpr)
 		if !ok {
-			return -1, nil, false
+			return 0, false
 		}
 		rid, ok := ast.Unparen(sel.X).(*ast.Ident)
 		if !ok {
-			return -1, nil, false
+			return 0, false
 		}
 		which := -1
 		for i, prm := range params {
@@ -1008,99 +995,164 @@ func RDistinct(c *core.Ctx) {
 		}
 		inner, ok := ast.Unparen(call.Args[0]).(*ast.CallExpr)
 		if !ok || len(inner.Args) != 0 || which < 0 {
-			return -1, nil, false
+			return 0, false
 		}
 		id, ok := ast.Unparen(inner.Fun).(*ast.Ident)
 		if !ok {
-			return -1, nil, false
+			return 0, false
 		}
 		v, ok := info.ObjectOf(id).(*types.Var)
 		if !ok || v.Parent() != syn.Types.Scope() {
-			return -1, nil, false
+			return 0, false
 		}
-		return which, []string{core.BaseName(v)}, true
+		a := atom{which, core.BaseName(v)}
+		if k, seen := atomIndex[a]; seen {
+			return k, true
+		}
+		atomIndex[a] = len(atoms)
+		atoms = append(atoms, a)
+		return len(atoms) - 1, true
 	}
-	type pair struct{ a, b string }
-	var pairs []pair
-	// claim: an expression whose truth makes the function answer true
-	var claim func(e ast.Expr) bool
-	claim = func(e ast.Expr) bool {
-		e = ast.Unparen(e)
-		if tv, ok := info.Types[e]; ok && tv.Value != nil {
-			return tv.Value.String() == "false" // `return false` claims nothing
-		}
-		if id, ok := e.(*ast.Ident); ok {
-			if def, ok := locals[info.ObjectOf(id)]; ok {
-				return claim(def)
-			}
-		}
-		if be, ok := e.(*ast.BinaryExpr); ok && be.Op == token.LOR {
-			return claim(be.X) && claim(be.Y)
-		}
-		cjs := conjuncts(e)
-		if len(cjs) != 2 {
-			return false
-		}
-		p1, a, ok1 := side(cjs[0])
-		p2, b, ok2 := side(cjs[1])
-		if !ok1 || !ok2 || p1 == p2 {
-			return false
-		}
-		if p1 == 1 {
-			a, b = b, a
-		}
-		for _, x := range a {
-			for _, y := range b {
-				pairs = append(pairs, pair{x, y})
-			}
+	// first pass: collect atoms
+	ast.Inspect(fd.Body, func(x ast.Node) bool {
+		if e, ok := x.(ast.Expr); ok {
+			atomOf(e)
 		}
 		return true
-	}
+	})
 	formOK := true
 	var badAt token.Pos
-	var walk func(list []ast.Stmt, guarded bool)
-	walk = func(list []ast.Stmt, guarded bool) {
+	unknown := func(pos token.Pos) {
+		if formOK {
+			formOK, badAt = false, pos
+		}
+	}
+	var evalExpr func(e ast.Expr, asg uint, env map[types.Object]bool) bool
+	evalExpr = func(e ast.Expr, asg uint, env map[types.Object]bool) bool {
+		e = ast.Unparen(e)
+		if tv, ok := info.Types[e]; ok && tv.Value != nil {
+			return tv.Value.String() == "true"
+		}
+		if k, ok := atomOf(e); ok {
+			return asg&(1<<uint(k)) != 0
+		}
+		switch x := e.(type) {
+		case *ast.Ident:
+			if v, ok := env[info.ObjectOf(x)]; ok {
+				return v
+			}
+		case *ast.UnaryExpr:
+			if x.Op == token.NOT {
+				return !evalExpr(x.X, asg, env)
+			}
+		case *ast.BinaryExpr:
+			switch x.Op {
+			case token.LAND:
+				return evalExpr(x.X, asg, env) && evalExpr(x.Y, asg, env)
+			case token.LOR:
+				return evalExpr(x.X, asg, env) || evalExpr(x.Y, asg, env)
+			}
+		}
+		unknown(e.Pos())
+		return false
+	}
+	// evalStmts: (result, returned)
+	var evalStmts func(list []ast.Stmt, asg uint, env map[types.Object]bool) (bool, bool)
+	evalStmts = func(list []ast.Stmt, asg uint, env map[types.Object]bool) (bool, bool) {
 		for _, st := range list {
 			switch x := st.(type) {
 			case *ast.ReturnStmt:
 				if len(x.Results) != 1 {
-					formOK, badAt = false, x.Pos()
-					continue
+					unknown(x.Pos())
+					return false, true
 				}
-				if tv, ok := info.Types[x.Results[0]]; ok && tv.Value != nil {
-					if tv.Value.String() == "true" && !guarded {
-						formOK, badAt = false, x.Pos()
-					}
-					continue
-				}
-				if !claim(x.Results[0]) {
-					formOK, badAt = false, x.Pos()
-				}
+				return evalExpr(x.Results[0], asg, env), true
 			case *ast.IfStmt:
-				if x.Init != nil || x.Else != nil || !claim(x.Cond) {
-					formOK, badAt = false, x.Pos()
-					continue
+				if x.Init != nil {
+					unknown(x.Pos())
+					return false, true
 				}
-				walk(x.Body.List, true)
+				if evalExpr(x.Cond, asg, env) {
+					if r, done := evalStmts(x.Body.List, asg, env); done {
+						return r, true
+					}
+				} else if x.Else != nil {
+					var el []ast.Stmt
+					switch e := x.Else.(type) {
+					case *ast.BlockStmt:
+						el = e.List
+					default:
+						el = []ast.Stmt{e}
+					}
+					if r, done := evalStmts(el, asg, env); done {
+						return r, true
+					}
+				}
 			case *ast.AssignStmt:
-				// boolean locals (collected above); anything else is not understood
+				if len(x.Lhs) != len(x.Rhs) {
+					unknown(x.Pos())
+					return false, true
+				}
 				for i, l := range x.Lhs {
 					id, ok := l.(*ast.Ident)
-					if !ok || x.Tok != token.DEFINE || i >= len(x.Rhs) || !isBoolExpr(info, x.Rhs[i]) {
-						formOK, badAt = false, x.Pos()
+					if !ok || !isBoolExpr(info, x.Rhs[i]) {
+						unknown(x.Pos())
+						return false, true
 					}
-					_ = id
+					env[info.ObjectOf(id)] = evalExpr(x.Rhs[i], asg, env)
+				}
+			case *ast.BlockStmt:
+				if r, done := evalStmts(x.List, asg, env); done {
+					return r, true
 				}
 			default:
-				formOK, badAt = false, st.Pos()
+				unknown(st.Pos())
+				return false, true
+			}
+		}
+		return false, false
+	}
+	type pair struct{ a, b string }
+	var pairs []pair
+	if len(atoms) == 0 || len(atoms) > 14 {
+		unknown(fd.Pos())
+	}
+	listed := map[[2]int]bool{}
+	if formOK {
+		// pairs: only these two identities hold
+		for i, a := range atoms {
+			for j, b := range atoms {
+				if a.prm != 0 || b.prm != 1 {
+					continue
+				}
+				r, _ := evalStmts(fd.Body.List, (1<<uint(i))|(1<<uint(j)), map[types.Object]bool{})
+				if r && formOK {
+					listed[[2]int{i, j}] = true
+					pairs = append(pairs, pair{a.class, b.class})
+				}
+			}
+		}
+		// every true answer is backed by a listed pair
+		for asg := uint(0); asg < 1<<uint(len(atoms)) && formOK; asg++ {
+			r, _ := evalStmts(fd.Body.List, asg, map[types.Object]bool{})
+			if !r || !formOK {
+				continue
+			}
+			backed := false
+			for pr := range listed {
+				if asg&(1<<uint(pr[0])) != 0 && asg&(1<<uint(pr[1])) != 0 {
+					backed = true
+				}
+			}
+			if !backed {
+				formOK, badAt = false, fd.Pos()
 			}
 		}
 	}
-	walk(fd.Body.List, false)
 	if !formOK {
-		c.Bad("knownDistinctSets / distinctness follows only from identity of both operands with predefined classes", badAt, "this statement lets the function answer from something other than `set1.Equals(A()) … && set2.Equals(B()) …`: a conclusion drawn from category names or tables is not checked against the characters (\\w contains the connector punctuation Pc; \\d and \\p{N} overlap)")
+		c.Bad("knownDistinctSets / distinctness follows only from identity of both operands with predefined classes", badAt, "the function can answer from something other than `set1.Equals(A()) … && set2.Equals(B()) …` (this statement or expression is not an identity test, a boolean connective, a guard or a boolean local): a conclusion drawn from category names or tables is not checked against the characters (\\w contains the connector punctuation Pc; \\d and \\p{N} overlap)")
 	} else {
-		c.OK("knownDistinctSets / distinctness follows only from identity of both operands with predefined classes", fd.Pos(), "%d class pairs listed", len(pairs))
+		c.OK("knownDistinctSets / distinctness follows only from identity of both operands with predefined classes", fd.Pos(), "%d identity atoms, %d class pairs listed, all truth assignments evaluated", len(atoms), len(pairs))
 	}
 	evals := map[string]func(rune) bool{}
 	for _, pr := range pairs {
@@ -1163,8 +1215,48 @@ func readsField(v ssa.Value, f *types.Var, depth int) bool {
 				return true
 			}
 		}
+	case *ssa.Call:
+		// a predicate of the module that reads the field (r.remainingShorterThan(n))
+		if cal := x.Call.StaticCallee(); cal != nil && core.InModule(cal) && depth < 3 {
+			for _, b := range cal.Blocks {
+				for _, ins := range b.Instrs {
+					if ld, ok := ins.(*ssa.UnOp); ok && ld.Op == token.MUL && core.FieldVarOfAddr(ld.X) == f {
+						return true
+					}
+				}
+			}
+		}
 	}
 	return false
+}
+
+// returnsNilNilHelper: `return r.noMatch()` where every return of the helper is (nil, nil).
+func returnsNilNilHelper(ret *ssa.Return) bool {
+	ex0, ok0 := ret.Results[0].(*ssa.Extract)
+	ex1, ok1 := ret.Results[1].(*ssa.Extract)
+	if !ok0 || !ok1 || ex0.Tuple != ex1.Tuple {
+		return false
+	}
+	call, ok := ex0.Tuple.(*ssa.Call)
+	if !ok {
+		return false
+	}
+	cal := call.Call.StaticCallee()
+	if cal == nil || !core.InModule(cal) || len(cal.Blocks) == 0 {
+		return false
+	}
+	n := 0
+	for _, b := range cal.Blocks {
+		r, ok := b.Instrs[len(b.Instrs)-1].(*ssa.Return)
+		if !ok {
+			continue
+		}
+		n++
+		if len(r.Results) != 2 || !core.IsNilConst(r.Results[0]) || !core.IsNilConst(r.Results[1]) {
+			return false
+		}
+	}
+	return n > 0
 }
 
 func RNoMatchExit(c *core.Ctx) {
@@ -1181,7 +1273,10 @@ func RNoMatchExit(c *core.Ctx) {
 	n := 0
 	for _, b := range scan.Blocks {
 		ret, ok := b.Instrs[len(b.Instrs)-1].(*ssa.Return)
-		if !ok || len(ret.Results) != 2 || !core.IsNilConst(ret.Results[0]) || !core.IsNilConst(ret.Results[1]) {
+		if !ok || len(ret.Results) != 2 {
+			continue
+		}
+		if !(core.IsNilConst(ret.Results[0]) && core.IsNilConst(ret.Results[1])) && !returnsNilNilHelper(ret) {
 			continue
 		}
 		n++
